@@ -761,6 +761,19 @@ impl Constraint {
     pub fn is_logic_assertion(&self) -> bool {
         self.is_logic_assertion
     }
+
+    /// Returns the same constraint with both sides flattened and simplified,
+    /// so that analyses see constants in one canonical spelling (`-2 * x`,
+    /// `(0 - 2) * x` and `(1 + 1) * x` all become a literal coefficient).
+    pub fn normalized(&self) -> Self {
+        Self {
+            name: self.name.clone(),
+            lhs: self.lhs.clone().flatten().simplify(),
+            constraint_type: self.constraint_type,
+            rhs: self.rhs.clone().flatten().simplify(),
+            is_logic_assertion: self.is_logic_assertion,
+        }
+    }
 }
 
 impl fmt::Display for Constraint {
